@@ -1,8 +1,7 @@
-(* C01 - property theorems (statements only; the proofs live in Acme.C01.ProofsXxx). *)
+(* C01 - property theorems (statements only; the proofs live in Acme.C01.ProofsXxx / Acme.C07.ProofsXxx). *)
 From Coq Require Import ZArith List Sorted.
-From Acme.C01 Require Import Layout State Model ProofsLayout ProofsInv Refuted ProofsT1 ProofsSpec.
-From Acme.C07 Require Import Proofs.
-From Acme.C01 Require Import Examples ProofsFrame.
+From Acme.C01 Require Import Layout State Model ProofsLayout ProofsInv Refuted ProofsT1 ProofsSpec ProofsFrame Examples.
+From Acme.C07 Require Import Proofs ProofsReg ProofsFinal.
 Open Scope Z_scope.
 
 (* the boolean predicate evaluated on the implementation's snapshots is the declarative one *)
@@ -10,34 +9,44 @@ Theorem wfb_iff_wf : forall size v, wfb size v = true <-> wf size v.
 Proof. exact wfb_wf. Qed.
 Print Assumptions wfb_iff_wf.
 
-(* T1. For every history whose steps satisfy the per-step hypotheses [ok_op_w] (Acme.C07.Proofs),
+(* T1. For every history whose steps satisfy the per-step hypotheses [ok_op_f] (Acme.C07.ProofsReg),
    every message layout of the reached state is sorted, pairwise disjoint and inside the payload.
-   The hypotheses are the narrowest conditions excluding the open findings:
+   [ok_op_f] only excludes the open findings:
      - OAppend / OInsert / OMuxInsert: the signal is in no layout (or already in that multiplexer,
        for further groups)                                                  [D20 re-attachment, C05]
-     - OSetType / OSetEnum x: link_top s x (a top-level signal knows its message and is registered
-       there, an unplaced one has no parent: C05's invariant for x) and single_followers s x
-       (signals behind x in a group holding x are held by that group only)            [D35]
-     - OAddValue / OUpdateIndex changing the enum size: the same for every referencing signal, and
-       no layout holds two referencing signals                                        [D36, D35]
+     - OSetType / OSetEnum x: single_followers s x (signals behind x in a multiplexer group holding
+       x are held by that group only)                                                 [D35]
+     - OAddValue / OUpdateIndex changing the enum size: single_followers for every referencing
+       signal, and no layout holds two referencing signals                            [D35, D36]
      - OSetMinSize: the size of attached referencing signals does not grow            [D03]
-   The other 20 operations carry no hypothesis. *)
-Theorem layout_wf_reachable : forall ops, ok_hist_w ops -> forall m,
+   The other 19 operations carry no hypothesis. Integer arguments are unbounded (Z): the Go code does
+   no arithmetic on an unchecked argument after 594ad9e / 39797fd. *)
+Theorem layout_wf_reachable : forall ops, ok_hist_f ops -> forall m,
   wf (8 * gbytes (run ops) m) (msg_view (run ops) m).
-Proof. exact t1_layout_wf. Qed.
+Proof. exact layout_wf_f. Qed.
 Print Assumptions layout_wf_reachable.
 
 (* the invariants behind T1: InvA (every message layout and every multiplexer group well-formed,
-   exclusivity of placement, allocation, enum bookkeeping) and InvM (multiplexer membership) hold
-   in every such state, and every single operation preserves them *)
-Theorem layout_invariant_reachable : forall ops, ok_hist_w ops -> InvA (run ops) /\ InvM (run ops).
-Proof. exact inv_reachable_w. Qed.
+   exclusivity of placement, allocation, enum bookkeeping), InvM (multiplexer membership) and InvR
+   (parent-message pointer and message registry = layout tree) hold in every such state, and every
+   single operation preserves them *)
+Theorem layout_invariant_reachable : forall ops, ok_hist_f ops -> InvA (run ops) /\ InvM (run ops) /\ InvR (run ops).
+Proof. exact inv3_reachable. Qed.
 Print Assumptions layout_invariant_reachable.
 
-Theorem layout_invariant_step : forall s o, InvA s -> InvM s -> ok_op_w s o ->
-  InvA (fst (step s o)) /\ InvM (fst (step s o)).
-Proof. exact step_keeps_invariants. Qed.
+Theorem layout_invariant_step : forall s o, InvA s -> InvM s -> InvR s -> ok_op_f s o ->
+  InvA (fst (step s o)) /\ InvM (fst (step s o)) /\ InvR (fst (step s o)).
+Proof. exact step_keeps_invariants3. Qed.
 Print Assumptions layout_invariant_step.
+
+(* Non-vacuity: a concrete history (an enum shared by signals of two messages growing under their
+   followers; a type change; a shift; a compaction; a resize; SetMinSize) satisfies the hypotheses
+   of T1 and ends in the expected layouts. *)
+Theorem hypotheses_satisfiable : ok_hist_f example_ops /\
+  map (fun m => map (fun x => (x, rel (run example_ops) x, sz (run example_ops) x)) (glay (run example_ops) m)) (0%nat :: 1%nat :: nil)
+  = (((0%nat, 0, 2) :: (2%nat, 2, 5) :: (3%nat, 7, 3) :: nil) :: ((1%nat, 0, 2) :: (4%nat, 2, 2) :: nil) :: nil).
+Proof. exact (conj example_ok example_final). Qed.
+Print Assumptions hypotheses_satisfiable.
 
 (* The statement without hypotheses ([layout_wf_full]) is refuted by the faithful model: each
    witness leaves exactly one hypothesis and is replayed on the Go code (known findings). *)
@@ -57,8 +66,11 @@ Theorem reattach_refuted : exists ops m, ~ wf (8 * gbytes (run ops) m) (msg_view
 Proof. exact t1_full_refuted_reattach. Qed.
 Print Assumptions reattach_refuted.
 
-(* T2 (accepted exactly when the arrangement fits), operation by operation, in every state
-   satisfying the invariant (hence in every state reached by an ok_hist history). *)
+(* T2 (accepted exactly when the arrangement fits), PARTIAL: proved operation by operation for
+   InsertSignal, AppendSignal, UpdateSizeByte, SetType of a top-level signal (below) and the
+   multiplexer InsertSignal (Properties/C07.v insert_refused_iff), in every state satisfying the
+   invariants. Not proved as theorems (harness oracle `fits` only): SetEnum, AddValue / UpdateIndex
+   with several referencing signals, SetType inside a multiplexer. *)
 Theorem insert_accepted_iff_fits : forall s m x b, InvA s ->
   (is_ok (snd (step_insert s m x b)) <-> memb x (gnames s m) = false /\ fits_insert s m x b).
 Proof. exact insert_accepted_iff. Qed.
@@ -78,10 +90,10 @@ Print Assumptions resize_accepted_iff_fits.
 
 (* growing a top-level signal by a is accepted exactly when a <= the gaps behind it plus the
    trailing space; shrinking to a positive size always *)
-Theorem grow_accepted_iff_fits : forall s m x old n, InvA s ->
-  kind s x = KStd old -> 1 <= n -> In x (glay s m) -> link_ok s x ->
+Theorem grow_accepted_iff_fits : forall s m x old n, InvA s -> InvM s -> InvR s ->
+  kind s x = KStd old -> 1 <= n -> In x (glay s m) ->
   (is_ok (snd (step_set_type s x n)) <-> n - old <= free_behind s m x).
-Proof. exact set_type_accepted_iff. Qed.
+Proof. exact set_type_accepted_iff_inv. Qed.
 Print Assumptions grow_accepted_iff_fits.
 
 (* T3. Shifts return the distance moved, move the named signal to the declarative clamp, move
@@ -122,27 +134,18 @@ Theorem compact_spec : forall s m, InvA s ->
 Proof. exact ProofsSpec.compact_spec. Qed.
 Print Assumptions compact_spec.
 
-(* Non-vacuity: a concrete, non-trivial history (shared enum growing under a follower, a type
-   change, a shift, a compaction) satisfies the hypotheses of T1. *)
-Theorem hypotheses_satisfiable : ok_hist_w example_ops /\
-  map (fun x => (x, rel (run example_ops) x, sz (run example_ops) x)) (glay (run example_ops) 0)
-  = ((0%nat, 0, 2) :: (1%nat, 2, 5) :: (2%nat, 7, 3) :: nil).
-Proof. exact (conj example_ok example_final). Qed.
-Print Assumptions hypotheses_satisfiable.
-
 (* T4 (frame), sizes: an operation changes the size only of the signal it names (SetType / SetEnum),
    of the signals of the enum it edits, or of the handle it creates. All 27 operations. *)
 Theorem frame_sizes : forall s o y, ~ resized_by s o y -> sz (fst (step s o)) y = sz s y.
 Proof. exact ProofsFrame.frame_sizes. Qed.
 Print Assumptions frame_sizes.
 
-(* T4 (frame), positions, partial: a signal moves only if it is the one named by an attach / shift,
+(* T4 (frame), positions, PARTIAL: a signal moves only if it is the one named by an attach / shift,
    sits in the compacted message, or sits in a layout that holds the signal resized by SetType /
-   SetEnum. Partial: for AddValue / UpdateIndex the moved set is not characterised ([may_move] is
-   True there), "in a layout holding the resized signal" is weaker than "behind it", and the
-   relative order of unnamed signals is only checked on the implementation (harness class
-   frame-order). *)
-Theorem frame_positions_partial : forall s o y, InvA s -> ok_op s o ->
+   SetEnum. Not characterised: AddValue / UpdateIndex ([may_move] is True there); "in a layout
+   holding the resized signal" is weaker than "behind it"; the relative order of unnamed signals is
+   only evaluated on the implementation (harness class frame-order). *)
+Theorem frame_positions_partial : forall s o y, InvA s -> InvM s -> InvR s -> ok_op_f s o ->
   rel (fst (step s o)) y <> rel s y -> may_move s o y.
-Proof. exact ProofsFrame.frame_positions_partial. Qed.
+Proof. exact frame_positions_f. Qed.
 Print Assumptions frame_positions_partial.
